@@ -214,7 +214,11 @@ Outcome check_c11(const Case &c, Stats &st) {
 std::vector<std::string> bwd_domains(const Tier &t) {
   // the property quantifies over the domains that implement backward operations;
   // constants, signs, powerset, packing, ... declare them "not implemented"
-  return domains_with(CAP_BACKWARD, CAP_REGION | CAP_BV, !t.thorough);
+  // array_adaptive implements backward array operations only partially; the engine can
+  // run it on the ARRAY profile (`--domains aa_intervals`, that is how KF48 was found and
+  // its reproducer replays) but the array domains are not part of the registered check:
+  // see DESIGN.md section 10.
+  return domains_with(CAP_BACKWARD, CAP_ARRAY | CAP_REGION | CAP_BV, !t.thorough);
 }
 PropertyRegistrar reg_c11({"C11", "sim_prog", gen_c11, check_c11, bwd_domains});
 
